@@ -236,7 +236,13 @@ def run_flow_case(c):
                 rec["cap"] = True
                 first = None
             except Exception as e:
-                rec["error"] = err(e) + ": " + str(e)[:200]
+                if isinstance(e, IndexError) and "pop from empty" in str(e) and p.populated and len(p.indices) == 0 \
+                        and p.samples is not None and p.samples.size == 0:
+                    # the population finished with an EMPTY pool (max_samples break with nothing accepted); draw then pops
+                    # from an empty list - the model's draw_one [] = None
+                    rec["empty_pool"] = True
+                else:
+                    rec["error"] = err(e) + ": " + str(e)[:200]
                 first = None
             model.paused = True
             # ---- what the oracles produced, recomputed from the recorded flow outputs with the real rescaling ----
@@ -710,8 +716,11 @@ def run_stat(c):
     pool = p.samples.copy()
     r = p.r
     brute = []
+    lp_max = float(np.max(model.raw_prior(model.new_point(20000))))
     while sum(len(b) for b in brute) < c["N"] and len(brute) < 400:
-        y = model.new_point(5000)
+        y = model.new_point(5000)           # uniform in the bounds where the prior is finite ...
+        lp = model.raw_prior(y)
+        y = y[np.log(np.random.rand(y.size)) < lp - lp_max]      # ... thinned to the prior itself
         with np.errstate(all="ignore"):
             z, _ = p.forward_pass(y, rescale=True, compute_radius=True)
         keep = np.sqrt(np.sum(z ** 2, axis=1)) <= r
